@@ -53,6 +53,7 @@ type ValidationTrace struct {
 	Model   map[string]string `json:"model"`
 	Order   []string          `json:"order"`
 	Observe []string          `json:"observe"` // "label=value" in order
+	FSTrace string            `json:"fs_trace,omitempty"`
 }
 
 type KnownFinding struct {
@@ -696,6 +697,9 @@ func (e *Engine) finishPath() {
 		return
 	}
 	tr := ValidationTrace{Harness: e.Harness, Model: m, Order: order}
+	if vfs != nil {
+		tr.FSTrace = strings.Join(vfs.ops, " ")
+	}
 	for i, o := range e.observe {
 		var sv string
 		switch x := o.v.(type) {
